@@ -5,7 +5,8 @@ Import ListNotations.
 Require Import SC.Base.Ord SC.Base.Val SC.Base.Series SC.Base.QcOrd.
 Require Import SC.Model.Repr SC.Model.Ops SC.Model.Masking SC.Model.Sampling SC.Model.Stats SC.Model.Slicing.
 Require Import SC.Spec.Den SC.Proofs.SeriesFacts SC.Proofs.ReprFacts SC.Proofs.OpsFacts SC.Proofs.MaskFacts SC.Proofs.ClipFacts
-               SC.Proofs.StatsFacts SC.Proofs.VarFacts SC.Proofs.CovFacts SC.Proofs.CovSelfFacts SC.Proofs.CorrBoundFacts.
+               SC.Proofs.StatsFacts SC.Proofs.VarFacts SC.Proofs.CovFacts SC.Proofs.CovSelfFacts SC.Proofs.CorrBoundFacts
+               SC.Proofs.CovCentredFacts.
 Open Scope Qc_scope.
 
 Lemma qsum_nonneg (l : list Qc) : Forall (fun x => 0 <= x) l -> 0 <= qsum l.
@@ -57,7 +58,7 @@ Proof.
   rewrite (clipped_var_canonical f1 f (Some a) (Some b) Wf1 Wf Fi Fv), (clipped_var_canonical g1 f (Some a) (Some b) Wg1 Wf Gi Gv).
   destruct (clipped_var f (Some a) (Some b)) as [vf|e] eqn:Ev; [|discriminate]. cbn [lift_res].
   assert (Hc : forall c, cov_masked f1 g1 (Some a) (Some b) = Ok c -> c = vf).
-  { intros c Ec. apply (cov_self_is_var f a b lc c vf Wf Mf); [|exact Ev]. unfold cov. rewrite Eo. cbn [lift_res]. exact Ec. }
+  { intros c Ec. apply (cov_self_is_var f a b lc c vf Wf Mf); [|exact Ev]. unfold cov. change (Qceqb 0 0) with true. cbv iota. rewrite closed_ok_refl. cbn [negb]. rewrite Eo. cbn [lift_res]. exact Ec. }
   destruct vf as [x|]; cbn [vmul vlift2].
   - destruct (Qceqb (x * x) 0) eqn:Ed; [discriminate|].
     destruct (cov_masked f1 g1 (Some a) (Some b)) as [c|e] eqn:Ec; [|discriminate]. cbn [lift_res].
